@@ -22,6 +22,19 @@ from .model import (EMPTY, Int, Bool, KIND, NULL, PYNONE, Ref, Str, BackInserter
                     NodeVec, Opaque, PairVec, Ptr, PtrVec, PyObj, ScalarVec, SpecObj, Tup, fresh)
 
 
+def _load_base_loops():
+    import json
+    from pathlib import Path
+    f = Path(__file__).resolve().parent.parent / 'loops.json'
+    try:
+        return json.loads(f.read_text())
+    except Exception:
+        return {}
+
+
+BASE_LOOPS = _load_base_loops()
+
+
 class Unsupported(Exception):
     pass
 
@@ -196,7 +209,7 @@ def type_class(t: str) -> str:
         return 'regptr'
     if re.match(r'std::optional<(pybind11|py)::function', t):
         return 'optfn'
-    if re.match(r'(pybind11|py)::', t) or t == 'PyObject *' or t == '_object *':
+    if re.match(r'(pybind11|py)::', t) or t in ('PyObject *', '_object *', 'PyTypeObject *', '_typeobject *'):
         return 'py'
     if 'ostringstream' in t or 'basic_ostream' in t:
         return 'oss'
@@ -352,7 +365,8 @@ class Engine:
             return consts[name]
         if name.startswith('k') and name[1:] in KIND:
             return z3.IntVal(KIND[name[1:]])
-        if name in ('PyTuple_Type', 'PyList_Type', 'PyDict_Type'):
+        if re.fullmatch(r'Py[A-Za-z]+_Type', name):
+            # the static type objects of CPython: one constant per name (nothing is assumed about them being distinct)
             return PyObj(z3.Const('py_' + name[2:-5].lower(), Ref), stable=True)
         if name == '_Py_NoneStruct':
             return PyObj(PYNONE, stable=True)
@@ -1103,6 +1117,8 @@ class Engine:
         for s, v in self.ev(inits[0], st):
             if not is_ref:
                 v = self.copy_value(s, v, t)
+            if isinstance(v, Ptr) and v.oid is None and type_class(re.sub(r'\*\s*const$', '*', t.strip())) == 'py':
+                v = PyObj(NULL)          # PyObject* / PyTypeObject* variable initialised with nullptr
             v = self.coerce(v, t) if not isinstance(v, (ElemRef, Ptr)) else v
             s.set(name, v, declare=True)
             outs.append(s)
@@ -1363,7 +1379,8 @@ class Engine:
         vd = loopvar.c[0]
         k, spec = self.loop_spec(n)
         if spec is None:
-            raise Unsupported(f'range loop #{k} at L{n.get("line")} in {self.fn} has no invariant in the sidecar')
+            raise Unsupported(f'range loop #{k} at L{n.get("line")} in {self.fn} has no invariant in the sidecar'
+                              + (' (new or rewritten loop)' if k == -1 else ''))
         idx_name = getattr(spec, 'index', None) or f'{vd.name}__idx'
         if isinstance(rng, Ptr) and isinstance(st.heap.get(rng.oid), ScalarVec) and st.heap[rng.oid].name.startswith('specvec:'):
             length = lambda s: s.heap[rng.oid].len
@@ -1397,7 +1414,8 @@ class Engine:
     def run_loop(self, n, st, cond_n, inc_n, body):
         k, spec = self.loop_spec(n)
         if spec is None:
-            raise Unsupported(f'loop #{k} at L{n.get("line")} in {self.fn} has no invariant in the sidecar')
+            raise Unsupported(f'loop #{k} at L{n.get("line")} in {self.fn} has no invariant in the sidecar'
+                              + (' (new or rewritten loop)' if k == -1 else ''))
 
         def cond(s):
             if cond_n is None:
@@ -1720,18 +1738,64 @@ class Engine:
     def e_CXXNoexceptExpr(self, n, st):
         return [(st, z3.BoolVal(True))]
 
-    def index_loops(self, fn: N):
-        self.loop_ids = getattr(self, 'loop_ids', {})
-        k = 0
-        for d in self.walk(fn):
+    def loop_nodes(self, fn: N):
+        """Loop statements of a function in pre-order; records for each the `case` labels it is nested in (loop_ctx)."""
+        out = []
+        self.loop_ctx = getattr(self, 'loop_ctx', {})
+
+        def rec(d, labels):
+            if d.k == 'CaseStmt' and d.c:
+                labels = labels + tuple(x.name for x in self.walk(d.c[0]) if x.k == 'DeclRefExpr' and x.name)
+            is_loop = d.k in ('ForStmt', 'WhileStmt', 'CXXForRangeStmt', 'DoStmt')
             if d.k == 'DoStmt':
                 # the macro idiom `do { ... } while (0)` is not a loop
                 lit = [x for x in self.walk(d.c[1])] if len(d.c) > 1 else []
                 if any(x.k == 'IntegerLiteral' and str(x.get('v')) == '0' for x in lit) and len(lit) <= 2:
-                    continue
-            if d.k in ('ForStmt', 'WhileStmt', 'CXXForRangeStmt', 'DoStmt'):
+                    is_loop = False
+            if is_loop:
+                out.append(d)
+                self.loop_ctx[id(d)] = labels
+            for c in d.c:
+                rec(c, labels)
+
+        rec(fn, ())
+        return out
+
+    def loop_fingerprint(self, d: N) -> str:
+        """What identifies a loop for its sidecar specification: statement kind, loop variable(s), names used in its header."""
+        kids = list(d.c)
+        head = kids[:-1] if d.k != 'DoStmt' else kids[1:]
+        if d.k == 'CXXForRangeStmt':
+            head = [c for c in kids[:-1] if not (c.k == 'DeclStmt' and c.c and c.c[0].name.startswith(('__begin', '__end')))][:2] + [kids[-2]]
+        names = []
+        for h in head:
+            for x in self.walk(h):
+                if x.k in ('VarDecl', 'DeclRefExpr', 'MemberExpr') and x.name and not x.name.startswith('__') \
+                        and not x.name.startswith('operator'):
+                    names.append(x.name)
+        ctx = getattr(self, 'loop_ctx', {}).get(id(d), ())
+        return d.k + ':' + ','.join(dict.fromkeys(names)) + ('@' + '/'.join(ctx) if ctx else '')
+
+    def index_loops(self, fn: N):
+        """Loop specifications are keyed by the ordinal the loop had on the baseline tree.  When the loops of the function
+        differ from the baseline (ocv/loops.json), loops are aligned by fingerprint; an unmatched (new or rewritten) loop has no
+        specification, and a baseline loop that is gone is reported as contract drift by the ledger."""
+        self.loop_ids = getattr(self, 'loop_ids', {})
+        nodes = self.loop_nodes(fn)
+        cur = [self.loop_fingerprint(d) for d in nodes]
+        q = next((k for k, v in self.prog.functions.items() if v is fn), None)
+        base = BASE_LOOPS.get(q) if q is not None else None
+        if base is None or base == cur:
+            for k, d in enumerate(nodes):
                 self.loop_ids[id(d)] = k
-                k += 1
+            return
+        import difflib
+        sm = difflib.SequenceMatcher(a=base, b=cur, autojunk=False)
+        for d in nodes:
+            self.loop_ids[id(d)] = -1            # no specification
+        for blk in sm.get_matching_blocks():
+            for off in range(blk.size):
+                self.loop_ids[id(nodes[blk.b + off])] = blk.a + off
 
     # function execution ------------------------------------------------------------------------------
     def run(self, qname: str, contract, label: str = '') -> list[VC]:
